@@ -687,7 +687,9 @@ Inductive op :=
 | OGetMass (i : nat) (k : key)                      (* indexer.by_mass()[key]: the memoised view over the same dicts *)
 | OSetMass (i : nat) (k : key) (d : data)           (* indexer.by_mass()[key] = data *)
 | OMixPhase (i : nat) (p : string) (vals : vec)     (* X.mix_from([X, <single-phase indexer of the same chemicals, phase p>]) *)
-| OCopyPhase (i : nat) (p : string) (vals : vec).   (* X.copy_like(<single-phase indexer of the same chemicals, phase p>) *)
+| OCopyPhase (i : nat) (p : string) (vals : vec)    (* X.copy_like(<single-phase indexer of the same chemicals, phase p>) *)
+| OMixMat (i : nat) (src : list (string * vec))     (* X.mix_from([X, <multi-phase indexer of the same chemicals>]) *)
+| OCopyMat (i : nat) (src : list (string * vec)).   (* X.copy_like(<multi-phase indexer of the same chemicals>) *)
 
 Inductive obs :=
 | BVal (v : val)
@@ -718,6 +720,44 @@ Definition add_phase_row (n : nat) (phs : list string) (rows : list vec) (p : st
   | Err _ => let (phs', rows') := insert_phase p phs rows (vzero n) in
              (phs', rows', match pcall phs' p with Ok r => r | Err _ => O end)
   end.
+
+(* _expand_phases(other_phases): every phase not literally among the own ones gets its OWN new empty row *)
+Fixpoint insert_phases (ps : list string) (phs : list string) (rows : list vec) (z : vec) : list string * list vec :=
+  match ps with
+  | [] => (phs, rows)
+  | p :: r => if mem_str p phs then insert_phases r phs rows z
+              else let (a, b) := insert_phase p phs rows z in insert_phases r a b z
+  end.
+Definition knows_phase (phs : list string) (p : string) : bool :=
+  match pcall phs p with Ok _ => true | Err _ => false end.
+(* rows[phase_indexer(p)] op= v for every row of the source, in the source's order *)
+Fixpoint scatter_rows (f : vec -> vec -> vec) (phs : list string) (rows : list vec) (src : list (string * vec)) : list vec :=
+  match src with
+  | [] => rows
+  | (p, v) :: r =>
+      match pcall phs p with
+      | Ok k => scatter_rows f phs (upd rows k (f (nth k rows []) v)) r
+      | Err _ => scatter_rows f phs rows r
+      end
+  end.
+Definition lower_ascii (a : ascii) : ascii :=
+  let n := nat_of_ascii a in if Nat.leb 65 n && Nat.leb n 90 then ascii_of_nat (n + 32) else a.
+Definition lower1 (s : string) : string :=
+  match s with String a EmptyString => String (lower_ascii a) EmptyString | _ => s end.
+(* PhaseIndexer.compatible_with: same letters in the same (sorted) order, up to case *)
+Definition compatible (a b : list string) : bool := phs_eqb (map lower1 a) (map lower1 b).
+
+(* MaterialIndexer.mix_from([self, M]), M of the same chemicals: expansion happens only when some phase of M is
+   unknown even up to case, and then adds every phase of M that is not literally present *)
+Definition mix_mat (n : nat) (phs : list string) (rows : list vec) (src : list (string * vec)) : list string * list vec :=
+  let sp := map fst src in
+  let (phs', rows') := if forallb (knows_phase phs) sp then (phs, rows) else insert_phases sp phs rows (vzero n) in
+  (phs', scatter_rows vadd phs' rows' src).
+(* MaterialIndexer.copy_like(M), M of the same chemicals *)
+Definition copy_mat (n : nat) (phs : list string) (rows : list vec) (src : list (string * vec)) : list string * list vec :=
+  let sp := map fst src in
+  let (phs', rows') := if phs_eqb phs sp || compatible phs sp then (phs, rows) else insert_phases sp phs rows (vzero n) in
+  (phs', scatter_rows (fun _ v => v) phs' (map (fun x => vzero (length x)) rows') src).
 
 Definition step (vr : variant) (c : cfg) (s : state) (o : op) : state * obs :=
   match o with
@@ -822,6 +862,20 @@ Definition step (vr : variant) (c : cfg) (s : state) (o : op) : state * obs :=
           let '(phs', rows', r) := add_phase_row (nchem c) phs (map (fun x => vzero (length x)) rows) p in
           let rows'' := upd rows' r v in
           (mkst (scc s) (smc s) (upd (sixs s) i (IM phs' rows'')), BPh phs' rows'')
+      | _ => (s, BErr EOther)
+      end
+  | OMixMat i src =>
+      match nth_error (sixs s) i with
+      | Some (IM phs rows) =>
+          let (phs', rows') := mix_mat (nchem c) phs rows src in
+          (mkst (scc s) (smc s) (upd (sixs s) i (IM phs' rows')), BPh phs' rows')
+      | _ => (s, BErr EOther)
+      end
+  | OCopyMat i src =>
+      match nth_error (sixs s) i with
+      | Some (IM phs rows) =>
+          let (phs', rows') := copy_mat (nchem c) phs rows src in
+          (mkst (scc s) (smc s) (upd (sixs s) i (IM phs' rows')), BPh phs' rows')
       | _ => (s, BErr EOther)
       end
   end.
